@@ -114,6 +114,11 @@ int KSI_base32Decode(const char *base32, unsigned char **data, size_t *data_len)
 		}
 
 		if (isdigit(c)) {
+			/* Only the digits 2..7 belong to the base32 alphabet. */
+			if (c < '2' || c > '7') {
+				res = KSI_INVALID_FORMAT;
+				goto cleanup;
+			}
 			addBits(tmp, &bits_decoded, base32NumDecTable[c - '0']);
 			continue;
 		}
